@@ -267,6 +267,151 @@ theorem applyEvictId_closed (s : State) (id key : Nat) (w : Int) :
   · have hm' : ¬ (s.store.get? key).map (·.id) = some id := hm
     simp only [hm, hm', if_false, Nat.add_zero]
 
+/-! ### the sweeper's check against the store (`sweepEvict`, fix 36c87dc) -/
+
+/-- `unexpiredWithId`, spelled out. -/
+theorem unexpiredWithId_eq_true {s : State} {k id : Nat} :
+    unexpiredWithId s k id = true ↔
+      ∃ e, s.store.get? k = some e ∧ e.id = id ∧ (e.expiry = none ∨ ∃ t, e.expiry = some t ∧ s.now ≤ t) := by
+  unfold unexpiredWithId
+  cases hg : s.store.get? k with
+  | none => simp
+  | some e =>
+    cases hx : e.expiry with
+    | none => simp [hx]
+    | some t => simp [hx, Nat.not_lt]
+
+/-- The value stored under the key carries the id and its own deadline has passed: the check fails. -/
+theorem unexpiredWithId_of_expired {s : State} {k id : Nat} {e : Entry} {x : Nat} (h : s.store.get? k = some e)
+    (hx : e.expiry = some x) (hnow : s.now > x) : unexpiredWithId s k id = false := by
+  unfold unexpiredWithId
+  rw [h]
+  simp [hx, hnow]
+
+/-- Nothing stored under the key: the check fails. -/
+theorem unexpiredWithId_of_absent {s : State} {k id : Nat} (h : s.store.get? k = none) :
+    unexpiredWithId s k id = false := by
+  unfold unexpiredWithId
+  rw [h]
+
+/-- Another id stored under the key: the check fails. -/
+theorem unexpiredWithId_of_id_ne {s : State} {k id : Nat} {e : Entry} (h : s.store.get? k = some e) (hid : e.id ≠ id) :
+    unexpiredWithId s k id = false := by
+  unfold unexpiredWithId
+  rw [h]
+  simp [hid]
+
+/-- The check reads `store` and `now` only. -/
+theorem unexpiredWithId_congr {s s' : State} (h1 : s'.store = s.store) (h2 : s'.now = s.now) (k id : Nat) :
+    unexpiredWithId s' k id = unexpiredWithId s k id := by
+  unfold unexpiredWithId
+  rw [h1, h2]
+
+/-- The id is not charged: nothing happens. -/
+theorem sweepEvict_none {s : State} {id : Nat} (hg : s.adm.kw.get? id = none) : sweepEvict s id = (s, none) := by
+  unfold sweepEvict
+  rw [hg]
+
+/-- The value stored under the charged key has not itself expired: the sweeper leaves it (nothing happens). -/
+theorem sweepEvict_skip {s : State} {id : Nat} {wk : WKey} (hg : s.adm.kw.get? id = some wk)
+    (hu : unexpiredWithId s wk.key id = true) : sweepEvict s id = (s, none) := by
+  unfold sweepEvict
+  rw [hg]
+  simp [hu]
+
+/-- Otherwise the id is un-charged and the evict hook runs (what `sweepEvict` did for every charged id before the
+    check was added). -/
+theorem sweepEvict_take {s : State} {id : Nat} {wk : WKey} (hg : s.adm.kw.get? id = some wk)
+    (hu : unexpiredWithId s wk.key id = false) :
+    sweepEvict s id =
+      (applyEvictId { s with adm := { s.adm with kw := s.adm.kw.del id, used := s.adm.used - wk.weight } }
+        (id, wk.key, wk.weight), some (id, wk.key, wk.weight)) := by
+  unfold sweepEvict
+  rw [hg]
+  simp [hu, Adm.delete, hg]
+
+/-- The case split: nothing happens (id not charged, or the stored value has not expired), or the check failed and
+    the id is evicted as before. -/
+theorem sweepEvict_cases (s : State) (id : Nat) :
+    sweepEvict s id = (s, none) ∨
+    ∃ wk, s.adm.kw.get? id = some wk ∧ unexpiredWithId s wk.key id = false ∧
+      sweepEvict s id =
+        (applyEvictId { s with adm := { s.adm with kw := s.adm.kw.del id, used := s.adm.used - wk.weight } }
+          (id, wk.key, wk.weight), some (id, wk.key, wk.weight)) := by
+  cases hg : s.adm.kw.get? id with
+  | none => exact Or.inl (sweepEvict_none hg)
+  | some wk =>
+    cases hu : unexpiredWithId s wk.key id with
+    | true => exact Or.inl (sweepEvict_skip hg hu)
+    | false => exact Or.inr ⟨wk, rfl, hu, sweepEvict_take hg hu⟩
+
+/-- The case split with what the "nothing happens" case means for a charged id. -/
+theorem sweepEvict_cases' (s : State) (id : Nat) :
+    (sweepEvict s id = (s, none) ∧ ∀ wk, s.adm.kw.get? id = some wk → unexpiredWithId s wk.key id = true) ∨
+    ∃ wk, s.adm.kw.get? id = some wk ∧ unexpiredWithId s wk.key id = false ∧
+      sweepEvict s id =
+        (applyEvictId { s with adm := { s.adm with kw := s.adm.kw.del id, used := s.adm.used - wk.weight } }
+          (id, wk.key, wk.weight), some (id, wk.key, wk.weight)) := by
+  cases hg : s.adm.kw.get? id with
+  | none => exact Or.inl ⟨sweepEvict_none hg, fun wk h => by cases h⟩
+  | some wk =>
+    cases hu : unexpiredWithId s wk.key id with
+    | true => exact Or.inl ⟨sweepEvict_skip hg hu, fun wk' h => by cases h; exact hu⟩
+    | false => exact Or.inr ⟨wk, rfl, hu, sweepEvict_take hg hu⟩
+
+/-- The evict hook only removes entries: a value that is unexpired afterwards was so before. -/
+theorem unexpiredWithId_applyEvictId_sub (s : State) (e : Evicted) {k i : Nat}
+    (h : unexpiredWithId (applyEvictId s e) k i = true) : unexpiredWithId s k i = true := by
+  obtain ⟨en, hen, hid, hx⟩ := unexpiredWithId_eq_true.mp h
+  rw [applyEvictId_now] at hx
+  exact unexpiredWithId_eq_true.mpr ⟨en, applyEvictId_get?_sub s e hen, hid, hx⟩
+
+/-- The evict hook on behalf of another id leaves an unexpired value of this id alone. -/
+theorem unexpiredWithId_applyEvictId_keep (s : State) (e : Evicted) {k i : Nat} (hi : i ≠ e.1)
+    (h : unexpiredWithId s k i = true) : unexpiredWithId (applyEvictId s e) k i = true := by
+  obtain ⟨en, hen, hid, hx⟩ := unexpiredWithId_eq_true.mp h
+  refine unexpiredWithId_eq_true.mpr ⟨en, applyEvictId_get?_of_id_ne s e hen (by rw [hid]; exact hi), hid, ?_⟩
+  rw [applyEvictId_now]; exact hx
+
+/-- **The sweeper's evict hook never removes a value that has not expired by its own deadline** — for EVERY state,
+    whatever the index, the weight ledger and the worker look like: the entry stays as it is, and stays unexpired. -/
+theorem sweepEvict_keeps_unexpired (s : State) (id : Nat) {k : Nat} {e : Entry} (hk : s.store.get? k = some e)
+    (hu : unexpiredWithId s k e.id = true) :
+    (sweepEvict s id).1.store.get? k = some e ∧ unexpiredWithId (sweepEvict s id).1 k e.id = true := by
+  rcases sweepEvict_cases s id with h0 | ⟨wk, _, hx, h1⟩
+  · rw [h0]; exact ⟨hk, hu⟩
+  · rw [h1]
+    have hk0 : ({ s with adm := { s.adm with kw := s.adm.kw.del id, used := s.adm.used - wk.weight } } : State).store.get? k
+        = some e := hk
+    have hget : (applyEvictId { s with adm := { s.adm with kw := s.adm.kw.del id, used := s.adm.used - wk.weight } }
+        (id, wk.key, wk.weight)).store.get? k = some e := by
+      by_cases hkk : k = wk.key
+      · have hid : e.id ≠ id := by
+          intro hid
+          rw [← hkk, ← hid, hu] at hx
+          cases hx
+        exact applyEvictId_get?_of_id_ne _ _ hk0 hid
+      · rw [applyEvictId_get?_other _ _ (show k ≠ ((id, wk.key, wk.weight) : Evicted).2.1 from hkk)]
+        exact hk0
+    refine ⟨hget, ?_⟩
+    obtain ⟨en, hen, hid, hxx⟩ := unexpiredWithId_eq_true.mp hu
+    rw [hk] at hen
+    cases hen
+    exact unexpiredWithId_eq_true.mpr ⟨e, hget, rfl, by rw [applyEvictId_now]; exact hxx⟩
+
+theorem sweepEntries_keeps_unexpired : ∀ (l : List ((Nat × Nat) × Nat)) (s : State) (acc : List Evicted) {k : Nat}
+    {e : Entry}, s.store.get? k = some e → unexpiredWithId s k e.id = true →
+    (sweepEntries s l acc).1.store.get? k = some e := by
+  intro l
+  induction l with
+  | nil => intro s acc k e hk _; exact hk
+  | cons p rest ih =>
+    intro s acc k e hk hu
+    obtain ⟨⟨sh, id⟩, x⟩ := p
+    simp only [sweepEntries]
+    obtain ⟨h1, h2⟩ := sweepEvict_keeps_unexpired s id hk hu
+    exact ih _ _ h1 h2
+
 /-! ### the old hook would remove a newer incarnation -/
 
 /-- a store that holds key 1 under the (newer) id 2 -/
@@ -288,6 +433,21 @@ example :
 example :
     (applyEvictId evictIdWitness (2, 1, 3)).store.get? 1 = none ∧
     (applyEvictId evictIdWitness (2, 1, 3)).stats.keysDeleted = 1 := by
+  decide
+
+/-- non-vacuity of `sweepEvict_skip` / `sweepEvict_take`: key 1 stored under id 2 without deadline and charged: a sweep
+    on behalf of id 2 leaves everything; with a deadline that has passed (clock 9, deadline 5) the id is evicted. -/
+example :
+    let s := { evictIdWitness with adm := { max := 10, used := 3, kw := [(2, ⟨1, 1, 3⟩)] } }
+    unexpiredWithId s 1 2 = true ∧ (sweepEvict s 2).2 = none ∧ (sweepEvict s 2).1.store.get? 1 ≠ none ∧
+    (sweepEvict s 2).1.adm.used = 3 := by
+  decide
+
+example :
+    let s := { evictIdWitness with now := 9, store := [(1, { value := 7, id := 2, expiry := some 5, soft := false })],
+                                    adm := { max := 10, used := 3, kw := [(2, ⟨1, 1, 3⟩)] } }
+    unexpiredWithId s 1 2 = false ∧ (sweepEvict s 2).2 = some (2, 1, 3) ∧ (sweepEvict s 2).1.store.get? 1 = none ∧
+    (sweepEvict s 2).1.adm.used = 0 := by
   decide
 
 end Cached
